@@ -62,6 +62,8 @@ def _as_slice(eng, m, args, fr, dty):
 def _to_vec(eng, m, args, fr, dty):
     v = args[0]
     t = eng.deref(v, fr)
+    if isinstance(t, Opaque):
+        return Opaque(t.what)
     if isinstance(t, Enum) and t.ty == 'Cow':
         return Vec([deep_copy(x) for x in items_of(eng, t.fields[0], fr)])
     if isinstance(t, Vec) and t.symlen is not None:
